@@ -455,6 +455,13 @@ def scan_spec(f):
         if 'first' in short:
             return Spec('first', lambda j: [ge(j, v[1]), lt(j, n), ge(j, 0)], test, 'index', [ge(m, 1)])
         return Spec('last', lambda j: [le(j, v[1]), lt(j, n), ge(j, 0)], test, 'index', [ge(m, 1)])
+    if short in ('find_first_of', 'find_first_not_of', 'find_last_of', 'find_last_not_of') and ks == ('cstr', 'n', 'n'):
+        # the set is the first `count` characters of str (it may contain NUL characters)
+        r, m = needle(0)
+        test = ('in_set_n', r, v[2]) if 'not' not in short else ('not_in_set_n', r, v[2])
+        if 'first' in short:
+            return Spec('first', lambda j: [ge(j, v[1]), lt(j, n), ge(j, 0)], test, 'index', [ge(v[2], 1)])
+        return Spec('last', lambda j: [le(j, v[1]), lt(j, n), ge(j, 0)], test, 'index', [ge(v[2], 1)])
     if short == 'contains':
         if ks in (('fs',), ('string',), ('cstr',)):
             r, m = needle(0)
